@@ -11,10 +11,16 @@
 (*          element), x (comp target)]                                                      *)
 (*  stmt (k): assign x e | expr e | def x c decos | class x c | del x | ret e |             *)
 (*          for x it body | ifpos e body | with x e body | tryexc x body | setattr o a e |  *)
-(*          push e ; every statement has g: the site of its guard (0 = unguarded); a guard  *)
-(*          catches NameError/TypeError/AttributeError, logs the family and goes on.        *)
+(*          push e | store ts e (t1 = t2 = e with general targets) | annassign x e          *)
+(*          (x: int = e) | augsub o i (o[i] -= 1) | delsub o i (del o[i]) | fort t ns body   *)
+(*          (for <target> in ns) | witht t e body (with cm(e) as <target>);                  *)
+(*          every statement has g: the site of its guard (0 = unguarded); a guard            *)
+(*          catches NameError/TypeError/AttributeError/IndexError/ValueError, logs the       *)
+(*          family and goes on.                                                              *)
+(*  target (k): tname x | tsub o i (o[i]) | tattr o a (o.a) | ttuple ts (t1, t2 = ..)        *)
 (*  expr (k): int n | name x | ev s a (tracer: logs the value of a at site s) | call f args *)
-(*          kws | attr o a | sub1 a | lambda c | walrus x a | comp c ns                      *)
+(*          kws | attr o a | sub1 a | lambda c | walrus x a | comp c ns | mklist es ([..]) | *)
+(*          sub o i (o[i])                                                                  *)
 (*                                                                                          *)
 (* State  M = [frames, globs, ctx, objs, box, log, fuel]:                                   *)
 (*  frames : Seq([code, parent, vars])  activations (never popped: closures keep them);     *)
@@ -23,6 +29,7 @@
 (*  globs  : [context name -> [name -> value]]   global tables keyed by context name and    *)
 (*  ctx    : Seq(context name)                   the evaluator's context-pointer stack      *)
 (*           (one context here; C11 adds tables and pushes/pops around cross-file calls)    *)
+(*  lsts   : list objects (mutable sequences of values; a list value is a reference)        *)
 (*  objs   : instances [cls, attrs]; box : values pushed to the tracer's list; fuel: calls  *)
 (*           of interpreted functions still allowed (bounds recursion identically on both   *)
 (*           sides: the generated functions start with tick()).                             *)
@@ -65,7 +72,16 @@
 (*        (PNames below: a name the inner function assigns is taken for its local even if   *)
 (*        declared nonlocal there) and the defining activation was not called from the      *)
 (*        lexical owner (PyCell below computes the search; exact up to earlier deviations)  *)
-(* census mark (no deviation, never an excuse; shows that the ambiguous situations occur):  *)
+(*  annloc an interpreted function whose own block contains an annotated assignment           *)
+(*        `x: T = e` is entered (pyscript's static pre-pass does not know this binding form: *)
+(*        x is no local for it - it gets no cell and is invisible to the inner functions,    *)
+(*        and a read before the assignment finds an outer / global x instead of raising)     *)
+(* census marks (no deviation, never an excuse; show that the situations occur):             *)
+(*  excexit a guard inside an interpreted function caught an exception that left the           *)
+(*        activation of a callee (afterwards the caller's own declarations must govern)       *)
+(*  encsub an item of a list is stored / deleted / rebound through a target o[i] whose         *)
+(*        container or index is a variable of an ENCLOSING activation (the closure must have *)
+(*        captured a name that it mentions only inside an assignment target)                 *)
 (*  amb   a function is defined that captures x from an enclosing activation while ANOTHER  *)
 (*        activation on the call stack also has a local named x (recursion of the owner, a  *)
 (*        caller with a same-named variable): the capture must pick the lexical one         *)
@@ -82,17 +98,33 @@ Exc(e)  == [k |-> "exc", e |-> e]
 Fall    == [k |-> "fall"]
 IsExc(r) == r.k = "exc"
 Res(M, r) == [M |-> M, r |-> r]
-Catchable == {"NameError", "TypeError", "AttributeError"}
+Catchable == {"NameError", "TypeError", "AttributeError", "IndexError", "ValueError"}
 Builtins  == {"abs"}
 FunLike   == {"func", "native", "lambda", "comp"}
 
 (* ------------------------------ static analysis of one code object ---------------------- *)
+\* assignment targets: the names a target binds and the expressions it evaluates (container / index / object)
+RECURSIVE TBinds(_), TBindsL(_, _), TExprs(_), TExprsL(_, _)
+TBinds(t) == CASE t.k = "tname" -> {t.x} [] t.k = "ttuple" -> TBindsL(t.ts, 1) [] OTHER -> {}
+TBindsL(ts, i) == IF i > Len(ts) THEN {} ELSE TBinds(ts[i]) \cup TBindsL(ts, i + 1)
+TExprs(t) == CASE t.k = "tsub" -> <<t.o, t.i>> [] t.k = "tattr" -> <<t.o>> [] t.k = "ttuple" -> TExprsL(t.ts, 1) [] OTHER -> <<>>
+TExprsL(ts, i) == IF i > Len(ts) THEN <<>> ELSE TExprs(ts[i]) \o TExprsL(ts, i + 1)
+\* the statement kinds with general targets / subscripts: names bound, expressions evaluated, nested block
+TK == {"store", "annassign", "augsub", "delsub", "fort", "witht"}
+TKBinds(s) == CASE s.k = "store" -> TBindsL(s.ts, 1) [] s.k = "annassign" -> {s.x}
+                [] s.k \in {"fort", "witht"} -> TBinds(s.t) [] OTHER -> {}
+TKExprs(s) == CASE s.k = "store" -> TExprsL(s.ts, 1) \o <<s.e>> [] s.k = "annassign" -> <<s.e>>
+                [] s.k \in {"augsub", "delsub"} -> <<s.o, s.i>> [] s.k = "fort" -> TExprs(s.t)
+                [] s.k = "witht" -> TExprs(s.t) \o <<s.e>> [] OTHER -> <<>>
+TKBody(s) == IF s.k \in {"fort", "witht"} THEN s.body ELSE <<>>
 RECURSIVE BindsE(_), BindsEs(_, _), BindsS(_, _)
 BindsE(e) ==
   CASE e.k = "walrus" -> {e.x} \cup BindsE(e.a)
     [] e.k \in {"ev", "sub1"} -> BindsE(e.a)
     [] e.k = "attr" -> BindsE(e.o)
     [] e.k = "call" -> BindsE(e.f) \cup BindsEs(e.args, 1) \cup BindsEs([i \in 1..Len(e.kws) |-> e.kws[i].e], 1)
+    [] e.k = "mklist" -> BindsEs(e.es, 1)
+    [] e.k = "sub" -> BindsE(e.o) \cup BindsE(e.i)
     [] OTHER -> {}                                  \* int, name; lambda and comp are scopes of their own
 BindsEs(es, i) == IF i > Len(es) THEN {} ELSE BindsE(es[i]) \cup BindsEs(es, i + 1)
 BindsS(body, i) ==
@@ -107,6 +139,7 @@ BindsS(body, i) ==
           [] s.k = "with" -> {s.x} \cup BindsE(s.e) \cup BindsS(s.body, 1)
           [] s.k = "tryexc" -> {s.x} \cup BindsS(s.body, 1)
           [] s.k = "setattr" -> BindsE(s.o) \cup BindsE(s.e)
+          [] s.k \in TK -> TKBinds(s) \cup BindsEs(TKExprs(s), 1) \cup BindsS(TKBody(s), 1)
           [] OTHER -> {})
        \cup BindsS(body, i + 1)
 \* every name occurring lexically in an expression / block / code object (nested code objects included)
@@ -118,6 +151,8 @@ NamesE(codes, e) ==
     [] e.k = "attr" -> NamesE(codes, e.o)
     [] e.k = "call" -> NamesE(codes, e.f) \cup NamesEs(codes, e.args, 1) \cup NamesEs(codes, [i \in 1..Len(e.kws) |-> e.kws[i].e], 1)
     [] e.k \in {"lambda", "comp"} -> NamesC(codes, e.c)
+    [] e.k = "mklist" -> NamesEs(codes, e.es, 1)
+    [] e.k = "sub" -> NamesE(codes, e.o) \cup NamesE(codes, e.i)
     [] OTHER -> {}
 NamesEs(codes, es, i) == IF i > Len(es) THEN {} ELSE NamesE(codes, es[i]) \cup NamesEs(codes, es, i + 1)
 NamesS(codes, body, i) ==
@@ -132,6 +167,7 @@ NamesS(codes, body, i) ==
           [] s.k = "ifpos" -> NamesE(codes, s.e) \cup NamesS(codes, s.body, 1)
           [] s.k = "with" -> {s.x} \cup NamesE(codes, s.e) \cup NamesS(codes, s.body, 1)
           [] s.k = "setattr" -> NamesE(codes, s.o) \cup NamesE(codes, s.e)
+          [] s.k \in TK -> TKBinds(s) \cup NamesEs(codes, TKExprs(s), 1) \cup NamesS(codes, TKBody(s), 1)
           [] OTHER -> {})
        \cup NamesS(codes, body, i + 1)
 NamesC(codes, c) ==
@@ -146,6 +182,8 @@ InnerE(codes, e) ==
     [] e.k = "attr" -> InnerE(codes, e.o)
     [] e.k = "call" -> InnerE(codes, e.f) \cup InnerEs(codes, e.args, 1) \cup InnerEs(codes, [i \in 1..Len(e.kws) |-> e.kws[i].e], 1)
     [] e.k \in {"lambda", "comp"} -> NamesC(codes, e.c)
+    [] e.k = "mklist" -> InnerEs(codes, e.es, 1)
+    [] e.k = "sub" -> InnerE(codes, e.o) \cup InnerE(codes, e.i)
     [] OTHER -> {}
 InnerEs(codes, es, i) == IF i > Len(es) THEN {} ELSE InnerE(codes, es[i]) \cup InnerEs(codes, es, i + 1)
 InnerS(codes, body, i) ==
@@ -157,6 +195,7 @@ InnerS(codes, body, i) ==
           [] s.k \in {"for", "tryexc"} -> InnerS(codes, s.body, 1)
           [] s.k \in {"ifpos", "with"} -> InnerE(codes, s.e) \cup InnerS(codes, s.body, 1)
           [] s.k = "setattr" -> InnerE(codes, s.o) \cup InnerE(codes, s.e)
+          [] s.k \in TK -> InnerEs(codes, TKExprs(s), 1) \cup InnerS(codes, TKBody(s), 1)
           [] OTHER -> {})
        \cup InnerS(codes, body, i + 1)
 \* does the block contain a comprehension written directly in it (not in a nested code object)
@@ -166,6 +205,8 @@ HasCompE(e) ==
     [] e.k \in {"ev", "sub1", "walrus"} -> HasCompE(e.a)
     [] e.k = "attr" -> HasCompE(e.o)
     [] e.k = "call" -> HasCompE(e.f) \/ HasCompEs(e.args, 1)
+    [] e.k = "mklist" -> HasCompEs(e.es, 1)
+    [] e.k = "sub" -> HasCompE(e.o) \/ HasCompE(e.i)
     [] OTHER -> FALSE
 HasCompEs(es, i) == IF i > Len(es) THEN FALSE ELSE HasCompE(es[i]) \/ HasCompEs(es, i + 1)
 HasCompS(body, i) ==
@@ -174,6 +215,7 @@ HasCompS(body, i) ==
        (CASE s.k \in {"assign", "expr", "ret", "push"} -> HasCompE(s.e)
           [] s.k \in {"for", "tryexc"} -> HasCompS(s.body, 1)
           [] s.k \in {"ifpos", "with"} -> HasCompE(s.e) \/ HasCompS(s.body, 1)
+          [] s.k \in TK -> HasCompEs(TKExprs(s), 1) \/ HasCompS(TKBody(s), 1)
           [] OTHER -> FALSE)
        \/ HasCompS(body, i + 1)
 \* the names of a block as pyscript's static pre-pass (get_names_set) collects them for the function owning the
@@ -189,6 +231,8 @@ PNamesE(codes, e) ==
     [] e.k = "call" -> PNamesE(codes, e.f) \cup PNamesEs(codes, e.args, 1) \cup PNamesEs(codes, [i \in 1..Len(e.kws) |-> e.kws[i].e], 1)
     [] e.k = "lambda" -> PNamesE(codes, codes[e.c].expr) \cup PNamesEs(codes, codes[e.c].dflt, 1)
     [] e.k = "comp" -> {codes[e.c].x} \cup PNamesE(codes, codes[e.c].expr)
+    [] e.k = "mklist" -> PNamesEs(codes, e.es, 1)
+    [] e.k = "sub" -> PNamesE(codes, e.o) \cup PNamesE(codes, e.i)
     [] OTHER -> {}
 PNamesEs(codes, es, i) == IF i > Len(es) THEN {} ELSE PNamesE(codes, es[i]) \cup PNamesEs(codes, es, i + 1)
 PNamesS(codes, body, i) ==
@@ -203,18 +247,28 @@ PNamesS(codes, body, i) ==
           [] s.k = "ifpos" -> PNamesE(codes, s.e) \cup PNamesS(codes, s.body, 1)
           [] s.k = "with" -> {s.x} \cup PNamesE(codes, s.e) \cup PNamesS(codes, s.body, 1)
           [] s.k = "setattr" -> PNamesE(codes, s.o) \cup PNamesE(codes, s.e)
+          [] s.k \in TK -> TKBinds(s) \cup PNamesEs(codes, TKExprs(s), 1) \cup PNamesS(codes, TKBody(s), 1)
           [] OTHER -> {})
        \cup PNamesS(codes, body, i + 1)
 PInner(codes, c) == PNamesS(codes, codes[c].body, 1) \ (BindsS(codes[c].body, 1) \cup Range(codes[c].globals))
 PMent(codes, c) == PNamesS(codes, codes[c].body, 1) \cup Range(AllParams(codes[c].sig))
                    \cup Range(codes[c].globals) \cup Range(codes[c].nonlocals)
+\* does the block contain an annotated assignment (directly, not in a nested code object)
+RECURSIVE HasAnnS(_, _)
+HasAnnS(body, i) ==
+  IF i > Len(body) THEN FALSE
+  ELSE LET s == body[i] IN
+       (CASE s.k = "annassign" -> TRUE
+          [] s.k \in {"for", "tryexc", "ifpos", "with", "fort", "witht"} -> HasAnnS(s.body, 1)
+          [] OTHER -> FALSE)
+       \/ HasAnnS(body, i + 1)
 \* does the block contain a def / class statement (pyscript keeps a function's locals in cells only then)
 RECURSIVE HasDefS(_, _)
 HasDefS(body, i) ==
   IF i > Len(body) THEN FALSE
   ELSE LET s == body[i] IN
        (CASE s.k \in {"def", "class"} -> TRUE
-          [] s.k \in {"for", "tryexc", "ifpos", "with"} -> HasDefS(s.body, 1)
+          [] s.k \in {"for", "tryexc", "ifpos", "with", "fort", "witht"} -> HasDefS(s.body, 1)
           [] OTHER -> FALSE)
        \/ HasDefS(body, i + 1)
 Declared(code) == Range(code.globals) \cup Range(code.nonlocals)
@@ -294,7 +348,9 @@ OtherHolder(P, M, g, w, x) ==
 Mark(M, m) == IF M.marks[m] = 0 THEN [M EXCEPT !.marks[m] = Len(M.log) + 1] ELSE M
 
 (* ------------------------------ log ------------------------------------------------------ *)
-Log(M, s, v) == [M EXCEPT !.log = Append(@, [s |-> s, k |-> v.k, n |-> IF v.k \in {"int", "list"} THEN v.n ELSE 0])]
+Log(M, s, v) == [M EXCEPT !.log = Append(@, [s |-> s, k |-> IF v.k = "lst" THEN "list" ELSE v.k,
+                                                n |-> IF v.k \in {"int", "list"} THEN v.n
+                                                      ELSE IF v.k = "lst" THEN Len(M.lsts[v.o]) ELSE 0])]
 LogExc(M, s, e) == [M EXCEPT !.log = Append(@, [s |-> s, k |-> e, n |-> 0])]
 
 (* ------------------------------ attributes ---------------------------------------------- *)
@@ -312,6 +368,20 @@ GetAttr(P, M, v, a, temp) ==
     [] v.k = "cls" -> LET cv == M.frames[v.fr].vars[a] IN IF cv.k = "unbound" THEN Exc("AttributeError") ELSE cv
     [] OTHER -> Exc("AttributeError")
 
+(* ------------------------------ list items ---------------------------------------------- *)
+\* o[i] on values ov, iv: position (1-based) of the item, 0 = IndexError; only lists are subscriptable here
+ItemErr(M, ov, iv) == IF ov.k = "list" THEN "Unmodelled"        \* the result of a comprehension carries no items here
+                      ELSE IF ov.k # "lst" \/ iv.k # "int" THEN "TypeError"
+                      ELSE LET n == Len(M.lsts[ov.o]) IN IF iv.n >= n \/ iv.n < 0 - n THEN "IndexError" ELSE "ok"
+ItemPos(M, ov, iv) == IF iv.n < 0 THEN iv.n + Len(M.lsts[ov.o]) + 1 ELSE iv.n + 1
+GetItem(M, ov, iv) == LET e == ItemErr(M, ov, iv) IN IF e # "ok" THEN Exc(e) ELSE M.lsts[ov.o][ItemPos(M, ov, iv)]
+SetItem(M, ov, iv, v) == LET e == ItemErr(M, ov, iv) IN
+  IF e # "ok" THEN Res(M, Exc(e)) ELSE Res([M EXCEPT !.lsts[ov.o][ItemPos(M, ov, iv)] = v], Fall)
+DelItem(M, ov, iv) == LET e == ItemErr(M, ov, iv) IN
+  IF e # "ok" THEN Res(M, Exc(e))
+  ELSE LET L == M.lsts[ov.o]  j == ItemPos(M, ov, iv) IN
+       Res([M EXCEPT !.lsts[ov.o] = [k \in 1..(Len(L) - 1) |-> IF k < j THEN L[k] ELSE L[k + 1]]], Fall)
+
 DefaultOf(sig, fv, p) ==
   LET n == Len(sig.po) + Len(sig.pk) IN
   IF \E i \in 1..n : Positional(sig)[i] = p
@@ -322,7 +392,8 @@ DefaultOf(sig, fv, p) ==
 (* ------------------------------ the interpreter ------------------------------------------ *)
 RECURSIVE Eval(_, _, _, _), EvalList(_, _, _, _, _, _), MakeFn(_, _, _, _), Comp(_, _, _, _, _, _),
           Apply(_, _, _, _, _, _, _), CallFn(_, _, _, _, _, _, _), ApplyDecos(_, _, _, _, _, _),
-          Exec(_, _, _, _, _), Stmt(_, _, _, _), ForLoop(_, _, _, _, _, _)
+          Exec(_, _, _, _, _), Stmt(_, _, _, _), ForLoop(_, _, _, _, _, _),
+          AssignT(_, _, _, _, _), AssignTs(_, _, _, _, _, _, _), SubRef(_, _, _, _, _), ForT(_, _, _, _, _)
 
 \* expressions es[i..] left to right; result [M, r] with r an exception or [k |-> "vals", vs]
 EvalList(P, M, f, es, i, acc) ==
@@ -368,6 +439,11 @@ Eval(P, M, f, e) ==
                        IF IsExc(o.r) THEN Res(IF e.o.k = "name" THEN Mark(o.M, "sv") ELSE o.M, o.r)
                        ELSE Res(o.M, GetAttr(P, o.M, o.r, e.a, e.o.k # "name"))
     [] e.k = "lambda" -> MakeFn(P, M, f, e.c)
+    [] e.k = "mklist" -> LET a == EvalList(P, M, f, e.es, 1, <<>>) IN
+                         IF IsExc(a.r) THEN a
+                         ELSE Res([a.M EXCEPT !.lsts = Append(@, a.r.vs)], [k |-> "lst", o |-> Len(a.M.lsts) + 1])
+    [] e.k = "sub" -> LET r == SubRef(P, M, f, e.o, e.i) IN
+                      IF IsExc(r.r) THEN r ELSE Res(r.M, GetItem(r.M, r.r.o, r.r.i))
     [] e.k = "comp" ->
          LET fr == [code |-> e.c, parent |-> f, vars |-> [n \in P.names |-> Unbound], nat |-> TRUE, caller |-> f]
              M1 == [M EXCEPT !.frames = Append(@, fr)]
@@ -416,7 +492,8 @@ CallFn(P, M, cf, fv, args, kwn, kwv) ==
               vars == [n \in P.names |-> IF n \in Range(AllParams(code.sig)) THEN val(n) ELSE Unbound]
               ucap == code.kind = "func" /\ \E x \in P.ment[fv.code] \ (P.loc[fv.code] \cup Range(code.globals)) :
                         LET w == Owner(P, M, fv.env, x) IN w # 0 /\ M.frames[w].vars[x].k = "unbound"
-              Mc   == IF code.kind = "func" /\ P.hascomp[fv.code] THEN Mark(M, "comp") ELSE M
+              Ma   == IF code.kind = "func" /\ P.hasann[fv.code] THEN Mark(M, "annloc") ELSE M
+              Mc   == IF code.kind = "func" /\ P.hascomp[fv.code] THEN Mark(Ma, "comp") ELSE Ma
               M1   == [(IF ucap THEN Mark(Mc, "ucap") ELSE Mc)
                          EXCEPT !.frames = Append(@, [code |-> fv.code, parent |-> fv.env, vars |-> vars, nat |-> fv.nat, caller |-> cf]),
                                 !.fuel = IF code.kind = "func" THEN @ - 1 ELSE @]
@@ -433,8 +510,51 @@ Exec(P, M, f, body, i) ==
   IF i > Len(body) THEN Res(M, Fall)
   ELSE LET s  == body[i]
            r0 == Stmt(P, M, f, s)
-           r  == IF IsExc(r0.r) /\ s.g > 0 /\ r0.r.e \in Catchable THEN Res(LogExc(r0.M, s.g, r0.r.e), Fall) ELSE r0
+           caught == IsExc(r0.r) /\ s.g > 0 /\ r0.r.e \in Catchable
+           \* census: a guard inside an interpreted function catches an exception of a statement during which the
+           \* body of an interpreted function started (the exception left a callee's activation)
+           ee == caught /\ f # 0 /\ P.codes[M.frames[f].code].kind = "func"
+                 /\ \E j \in (Len(M.frames) + 1)..Len(r0.M.frames) : P.codes[r0.M.frames[j].code].kind = "func"
+           r  == IF caught THEN Res(LogExc(IF ee THEN Mark(r0.M, "excexit") ELSE r0.M, s.g, r0.r.e), Fall) ELSE r0
        IN IF r.r.k = "fall" THEN Exec(P, r.M, f, body, i + 1) ELSE r
+
+\* container and index of o[i], evaluated in this order; result [k |-> "ref", o, i] or an exception.
+\* census: the container or the index is a plain name that resolves in an ENCLOSING activation
+SubRef(P, M, f, oe, ie) ==
+  LET o == Eval(P, M, f, oe) IN
+  IF IsExc(o.r) THEN o
+  ELSE LET i == Eval(P, o.M, f, ie) IN
+       IF IsExc(i.r) THEN i ELSE Res(i.M, [k |-> "ref", o |-> o.r, i |-> i.r])
+Encl(P, M, f, e) == e.k = "name" /\ f # 0 /\ Where(P, M, f, e.x) \notin {0, f}
+MarkEnc(P, M, f, oe, ie) == IF Encl(P, M, f, oe) \/ Encl(P, M, f, ie) THEN Mark(M, "encsub") ELSE M
+\* value v is assigned to target t (the value is already evaluated: Python evaluates the right-hand side first)
+AssignT(P, M, f, t, v) ==
+  CASE t.k = "tname" -> Res(Store(P, M, f, t.x, v), Fall)
+    [] t.k = "tsub" -> LET r == SubRef(P, M, f, t.o, t.i) IN
+                       IF IsExc(r.r) THEN r ELSE SetItem(MarkEnc(P, r.M, f, t.o, t.i), r.r.o, r.r.i, v)
+    [] t.k = "tattr" ->
+         LET o == Eval(P, M, f, t.o) IN
+         IF IsExc(o.r) THEN Res(IF t.o.k = "name" THEN Mark(o.M, "sv") ELSE o.M, o.r)
+         ELSE IF o.r.k = "obj" THEN Res([o.M EXCEPT !.objs[o.r.o].attrs[t.a] = v], Fall)
+         ELSE IF o.r.k = "cls" THEN Res([o.M EXCEPT !.frames[o.r.fr].vars[t.a] = v], Fall)
+         ELSE Res(o.M, Exc("AttributeError"))
+    [] t.k = "ttuple" ->
+         \* unpacking: only list objects are iterable here; the length is checked before anything is stored
+         IF v.k = "list" THEN Res(M, Exc("Unmodelled"))
+         ELSE IF v.k # "lst" THEN Res(M, Exc("TypeError"))
+         ELSE IF Len(M.lsts[v.o]) # Len(t.ts) THEN Res(M, Exc("ValueError"))
+         ELSE AssignTs(P, M, f, t.ts, M.lsts[v.o], 1, TRUE)
+\* targets ts[j..] left to right; each: the j-th of vals (each = TRUE) or all of them the same value vals[1]
+AssignTs(P, M, f, ts, vals, j, each) ==
+  IF j > Len(ts) THEN Res(M, Fall)
+  ELSE LET r == AssignT(P, M, f, ts[j], IF each THEN vals[j] ELSE vals[1]) IN
+       IF IsExc(r.r) THEN r ELSE AssignTs(P, r.M, f, ts, vals, j + 1, each)
+\* for <target> in ns: body
+ForT(P, M, f, s, j) ==
+  IF j > Len(s.ns) THEN Res(M, Fall)
+  ELSE LET a == AssignT(P, M, f, s.t, IntV(s.ns[j])) IN
+       IF IsExc(a.r) THEN a
+       ELSE LET r == Exec(P, a.M, f, s.body, 1) IN IF r.r.k = "fall" THEN ForT(P, r.M, f, s, j + 1) ELSE r
 
 ForLoop(P, M, f, s, vals, j) ==
   IF j > Len(vals) THEN Res(M, Fall)
@@ -448,6 +568,23 @@ Stmt(P, M, f, s) ==
     [] s.k = "ret" -> Eval(P, M, f, s.e)
     [] s.k = "push" -> LET a == Eval(P, M, f, s.e) IN
                        IF IsExc(a.r) THEN a ELSE Res([a.M EXCEPT !.box = Append(@, a.r)], Fall)
+    [] s.k = "store" -> LET a == Eval(P, M, f, s.e) IN
+                        IF IsExc(a.r) THEN a ELSE AssignTs(P, a.M, f, s.ts, <<a.r>>, 1, FALSE)
+    [] s.k = "annassign" -> LET a == Eval(P, M, f, s.e) IN IF IsExc(a.r) THEN a ELSE Res(Store(P, a.M, f, s.x, a.r), Fall)
+    [] s.k = "augsub" ->
+         LET r == SubRef(P, M, f, s.o, s.i) IN
+         IF IsExc(r.r) THEN r
+         ELSE LET it == GetItem(r.M, r.r.o, r.r.i) IN
+              IF IsExc(it) THEN Res(r.M, it)
+              ELSE IF it.k # "int" THEN Res(r.M, Exc("TypeError"))
+              ELSE SetItem(MarkEnc(P, r.M, f, s.o, s.i), r.r.o, r.r.i, IntV(it.n - 1))
+    [] s.k = "delsub" -> LET r == SubRef(P, M, f, s.o, s.i) IN
+                         IF IsExc(r.r) THEN r ELSE DelItem(MarkEnc(P, r.M, f, s.o, s.i), r.r.o, r.r.i)
+    [] s.k = "fort" -> ForT(P, M, f, s, 1)
+    [] s.k = "witht" -> LET a == Eval(P, M, f, s.e) IN
+                        IF IsExc(a.r) THEN a
+                        ELSE LET b == AssignT(P, a.M, f, s.t, a.r) IN
+                             IF IsExc(b.r) THEN b ELSE Exec(P, b.M, f, s.body, 1)
     [] s.k = "del" -> LET w == Where(P, M, f, s.x) IN
                       IF Raw(M, w, s.x).k = "unbound"
                       THEN (IF w = 0 /\ f # 0 /\ "del-global-silent" \in P.flags THEN Res(M, Fall) ELSE Res(M, Exc("NameError")))
@@ -504,10 +641,12 @@ Expected(prog, flags) ==
              inner |-> [c \in 1..Len(prog.codes) |-> InnerS(prog.codes, prog.codes[c].body, 1)],
              hascomp |-> [c \in 1..Len(prog.codes) |-> HasCompS(prog.codes[c].body, 1)],
              pment |-> [c \in 1..Len(prog.codes) |-> PMent(prog.codes, c)],
-             hasdef |-> [c \in 1..Len(prog.codes) |-> HasDefS(prog.codes[c].body, 1)]]
+             hasdef |-> [c \in 1..Len(prog.codes) |-> HasDefS(prog.codes[c].body, 1)],
+             hasann |-> [c \in 1..Len(prog.codes) |-> HasAnnS(prog.codes[c].body, 1)]]
       M0 == [frames |-> <<>>, globs |-> [c \in {"main"} |-> [n \in names |-> Unbound]], ctx |-> <<"main">>,
-             objs |-> <<>>, box |-> <<>>, log |-> <<>>, fuel |-> prog.fuel,
-             ndef |-> {}, marks |-> [m \in {"sv", "xdel", "comp", "ucap", "excas", "ndflt", "dyncap", "nldyn", "amb"} |-> 0]]
+             objs |-> <<>>, lsts |-> <<>>, box |-> <<>>, log |-> <<>>, fuel |-> prog.fuel,
+             ndef |-> {}, marks |-> [m \in {"sv", "xdel", "comp", "ucap", "excas", "ndflt", "dyncap", "nldyn", "amb",
+                                            "annloc", "encsub", "excexit"} |-> 0]]
       r  == Exec(P, M0, 0, prog.codes[1].body, 1)
   IN [log |-> IF IsExc(r.r) THEN Append(r.M.log, [s |-> 0, k |-> r.r.e, n |-> 0]) ELSE r.M.log, marks |-> r.M.marks]
 =============================================================================
